@@ -171,6 +171,22 @@ CLAIMED = {
         "after recording each event so that one residue cannot mask another.",
         "DESIGN.md section 5, C14",
     ),
+    "C18": (
+        "Coq proofs by mutual structural induction over nesting trees about a hand-written executable model of vocabulary-map "
+        "resolution (Network.context / Config.context / master map); vocabulary-identity partitions of built models compared "
+        "with the model in Coq",
+        "Theorems for nesting trees of any depth mixing plain and SPA containers with explicit overrides and seeds: all modules "
+        "of a model that are not below an explicit override resolve to the same vocabulary map, hence modules with equal "
+        "dimensionality share one Vocabulary object; the maps a model uses are created by that model, so models built one "
+        "after another never share vocabularies; dimensionality arguments below 1 or of the wrong kind are rejected. "
+        "Reproducibility from the seed is determinism of the traversal plus the seed recorded per map; 'a different seed gives "
+        "different pointers' is tested, not proved. Tie: all tree shapes to 4 (thorough 5) nodes over a reduced label set + "
+        "random trees to depth 4 / 12 nodes, two models per process, partition by `is` on .vocab; pointer equality across "
+        "two same-seed builds and inequality for a different seed; rejection table.",
+        "Trusted: Coq kernel; Model/NetworkCtx.v (Nengo's two context stacks modelled as traversal parameters); reading of "
+        "'the seed' as the seed of the network that creates the map (DESIGN.md); harness.",
+        "DESIGN.md section 5, C18",
+    ),
 }
 
 NOT_YET = "not yet built in this revision of /verif (design in DESIGN.md section 5); no check is claimed"
